@@ -90,12 +90,16 @@ type caseSpec struct {
 	pred       int
 	payload    string
 	nilValue   bool // unmarshal direction, pointer-typed T: the case lists a nil pointer as its value
+	nilIface   bool // interface-typed T: the case lists a nil interface value (not the first case)
 }
 
 func (c caseSpec) sig() string {
 	nv := ""
 	if c.nilValue {
 		nv = ",value=nil"
+	}
+	if c.nilIface {
+		nv = ",value=nil-interface"
 	}
 	return fmt.Sprintf("constraint=%d,beh=%s,before=%s,after=%s,pred=%s%s", c.constraint, behNames[c.beh], hookNames[c.before], hookNames[c.after], predNames[c.pred], nv)
 }
